@@ -136,6 +136,15 @@ impl Router {
         }
     }
 
+    // Request workers hold a handle on the server state until they have answered. An edit must
+    // not be dropped because one of them is still alive: wait until they are done.
+    fn server_mut(&mut self) -> &mut Server {
+        while Arc::get_mut(&mut self.server).is_none() {
+            std::thread::yield_now();
+        }
+        Arc::get_mut(&mut self.server).expect("no other handle on the server state")
+    }
+
     fn on_notification(&mut self, notification: Notification) -> bool {
         if notification.method == "exit" {
             return true;
@@ -144,15 +153,11 @@ impl Router {
         match notification.method.as_str() {
             "textDocument/didChange" => {
                 let params = DidChangeTextDocumentParams::deserialize(notification.params).unwrap();
-                Arc::get_mut(&mut self.server)
-                    .unwrap()
-                    .handle_did_change_text_document(params);
+                self.server_mut().handle_did_change_text_document(params);
             }
             "textDocument/didSave" => {
                 let params = DidSaveTextDocumentParams::deserialize(notification.params).unwrap();
-                Arc::get_mut(&mut self.server)
-                    .unwrap()
-                    .handle_did_save_text_document(params);
+                self.server_mut().handle_did_save_text_document(params);
             }
             default => {
                 debug!("unhandled request: {}", default)
